@@ -68,6 +68,13 @@ func runServerScripts(scripts []map[string]interface{}, race bool) ([]map[string
 	cmd.Dir = filepath.Join(repoDir, "cmd", "server")
 	cmd.Env = append(os.Environ(), "VERIF_SCRIPT="+sp, "VERIF_OUT="+op, "CGO_ENABLED="+map[bool]string{true: "1", false: "0"}[race])
 	out, err := cmd.CombinedOutput()
+	if i := strings.Index(string(out), "WARNING: DATA RACE"); race && i >= 0 {
+		rep := string(out)[i:]
+		if len(rep) > 2500 {
+			rep = rep[:2500]
+		}
+		return nil, fmt.Errorf("DATA RACE reported:\n%s", rep)
+	}
 	if err != nil {
 		return nil, fmt.Errorf("go test failed: %v\n%s", err, tail(string(out), 3000))
 	}
